@@ -342,7 +342,9 @@ def check(case):
             # jitter e on its diagonal, so the result is off by about e * sum_i prod_{j != i} |A_j| per halving round
             mm = mag_a.amax(dim=(-2, -1)).movedim(dim, -1)
             kk = mm.shape[-1]
-            others = sum(torch.cat([mm[..., :i], mm[..., i + 1 :]], -1).prod(-1) for i in range(kk))
+            # (intermediate products that vanish are re-decomposed WITH jitter and then multiplied by the remaining members:
+            #  any sub-product of the magnitudes can scale a jitter, bounded by prod_j max(1, |A_j|))
+            others = kk * mm.clamp_min(1.0).prod(-1)
             jit_scale = (jit_scale + 1.0) * (1.0 + float(others.max())) * (1 + math.ceil(math.log2(max(kk, 2))))
         elif k == "expand":
             extra = _pick(p, [(), (2,), (1,), (3, 1)])
